@@ -814,6 +814,10 @@ class Builder:
         if k == "mcall":
             return self._pe_mcall(e, env)
         if k == "macro":
+            if e.get("name") == "dispatch" and "arms" in e and "scrut" in e:
+                d = self._pe_dispatch(e, env)
+                if d is not None:
+                    return d
             if "expanded" in e:
                 ir = self.pe(e["expanded"], env)
                 ir = dict(ir)
@@ -824,6 +828,82 @@ class Builder:
         if k == "block" and len(e["stmts"]) == 1 and e["stmts"][0]["k"] == "expr":
             return self.pe(e["stmts"][0]["e"], env)
         return N("opaque", e, src=src(e))
+
+    def _pe_dispatch(self, e, env):
+        """winnow's `dispatch!{ SCRUT; pat => parser, .. }` where SCRUT looks at (or takes) one character: the arm is chosen by
+        that character, so the whole is an ordered choice of `guard, parser` pairs whose guards exclude each other — the guard
+        of `Some('c')` / `'c'` is that character (peeked, or consumed when SCRUT consumes), the guard of the catch-all is
+        "any other character" (and the end of the input when SCRUT is optional)."""
+        sp = self.pe(e["scrut"], env)
+        optional = sp["t"] == "alt" and sp.get("opt") and sp["alts"]
+        core = sp["alts"][0] if optional else sp
+        peeked = core["t"] == "peek"
+        if peeked:
+            core = core["p"]
+        if core["t"] != "any" or (optional and not peeked):
+            return None
+
+        def chars_of(p):
+            """(set of characters | None for a catch-all, is_none) of an arm pattern; False when not understood"""
+            while p["k"] in ("paren", "typed", "ref"):
+                p = p["pat"]
+            if optional:
+                if p["k"] == "tstruct" and p["segs"] == ["Some"] and len(p["elems"]) == 1:
+                    r = chars_of_plain(p["elems"][0])
+                    return False if r is False else (r, False)
+                if (p["k"] == "ident" and p["name"] == "None") or (p["k"] == "path" and p["segs"] == ["None"]):
+                    return (frozenset(), True)
+                if p["k"] == "wild" or (p["k"] == "ident" and p.get("sub") is None):
+                    return (None, True)
+                return False
+            r = chars_of_plain(p)
+            return False if r is False else (r, False)
+
+        def chars_of_plain(p):
+            while p["k"] in ("paren", "typed", "ref"):
+                p = p["pat"]
+            if p["k"] == "lit" and p.get("t") == "char":
+                return frozenset([p["v"]])
+            if p["k"] == "or":
+                out = set()
+                for c_ in p["cases"]:
+                    r = chars_of_plain(c_)
+                    if r is False or r is None:
+                        return False
+                    out |= r
+                return frozenset(out)
+            if p["k"] == "wild" or (p["k"] == "ident" and p.get("sub") is None and p["name"] != "None"):
+                return None
+            return False
+
+        seen = set()
+        alts = []
+        for arm in e["arms"]:
+            if arm.get("guard") is not None:
+                return None
+            r = chars_of(arm["pat"])
+            if r is False:
+                return None
+            chars, with_end = r
+            body = self.pe(arm["body"], env)
+            if chars is None:
+                g_ = N("set", e, cs=cs_notin(seen), min=1, max=1, one=True)
+            else:
+                mine = frozenset(chars) - seen
+                seen |= set(chars)
+                g_ = N("set", e, cs=cs_in(mine), min=1, max=1, one=True) if mine else None
+            guards = []
+            if g_ is not None:
+                guards.append(N("peek", e, p=g_) if peeked else g_)
+            if with_end and optional:
+                guards.append(N("eof", e))
+            if not guards:
+                continue
+            guard = guards[0] if len(guards) == 1 else N("alt", e, alts=guards)
+            alts.append(N("seq", e, items=[{"p": guard, "keep": False}, {"p": body, "keep": True}], dispatch_arm=True))
+            if chars is None:
+                break
+        return N("alt", e, alts=alts, dispatch=True)
 
     def _pe_path(self, e, env):
         segs = e["segs"]
